@@ -124,9 +124,10 @@ func init() {
 		lateAPI := c.Deviate(2) == 1 // built through the API; the parser's group is added after the commands and after a first completion and parse
 		// PassAfterNonOption set as well (two positional layouts whose fields complete differently): asserted before the first plain
 		// word as always, after it only where a positional value is being completed
+		afterIgnored := false
 		optVariant := c.Choose(3) // 1: PassAfterNonOption; 2: IgnoreUnknown (typed words with a passed-through unknown option are skipped: nothing may change)
 		pano, ignoreUnknown := optVariant == 1, optVariant == 2
-		if optVariant != 0 && !((layout == 2 || layout == 4) && !subOpt && !defOpts && !lateAPI) {
+		if optVariant != 0 && !((layout == 2 || layout == 4) && (!subOpt || optVariant == 2) && !defOpts && !lateAPI) {
 			c.Skip()
 		}
 		maxDepth := 3
@@ -182,7 +183,10 @@ func init() {
 					break
 				}
 				if (f == ref.FPositional || f == ref.FRest) && strings.HasPrefix(prefix[i], "-") {
-					c.Skip()
+					if !subOpt {
+						c.Skip()
+					}
+					afterIgnored = true // with optional subcommands the line stays valid: asserted like any other
 				}
 			}
 			c.Hit("ignore-unknown")
@@ -212,6 +216,7 @@ func init() {
 		}
 		var items []flags.Completion
 		calls := 0
+		_ = afterIgnored
 		b.Parser.CompletionHandler = func(it []flags.Completion) { items = it; calls++ }
 		func() {
 			os.Setenv("GO_FLAGS_COMPLETION", "1")
@@ -350,6 +355,9 @@ func init() {
 			c.Hit("asserted")
 			if !sameStrings(got, want) {
 				ctx := "context=" + strings.Join(chainNames(res.Chain), "/")
+				if afterIgnored {
+					ctx = "after-an-ignored-unknown-option"
+				}
 				if len(res.Rest) > 0 {
 					ctx += "+plain-word-before"
 				}
